@@ -167,8 +167,15 @@ Section Buffers.
     | Err e => (0, rv_code e, b)
     | Panic _ => (0, rv_code 0, b)
     end.
-  (* wire.VarIntSerializeSize only feeds Grow: any function *)
+  (* wire.VarIntSerializeSize only feeds Grow; (phase 5) Grow panics on a negative count, so the size must be
+     non-negative (it is 1, 3, 5 or 9) *)
   Variable varint_size : N -> Z.
+  Hypothesis varint_size_nonneg : forall v, (0 <= varint_size v)%Z.
+  Lemma require_size (v : N) (k : Z) : (0 <= k)%Z -> Go3.require (0 <=? varint_size v + k)%Z = Ok tt.
+  Proof using varint_size_nonneg.
+    clear rv_code rv_code_nz. intro Hk. unfold Go3.require. pose proof (varint_size_nonneg v) as Hv.
+    destruct (Z.leb_spec 0 (varint_size v + k)); [reflexivity|lia].
+  Qed.
 
   Definition gNBytes := Kernels3.gcs_Filter_NBytes (list N) buf_bytes [] varint_size buf_grow wire_write_varint buf_write.
   Definition gNPBytes := Kernels3.gcs_Filter_NPBytes (list N) buf_bytes [] varint_size buf_grow wire_write_varint
@@ -176,18 +183,21 @@ Section Buffers.
   Definition gFromNBytes := Kernels3.FromNBytes (list N) buf_new wire_read_varint buf_bytes.
 
   (* domain: n is a uint32 *)
-  Theorem NBytes_tie f : f_n f < two64 -> gNBytes (to_gen f) = (filter_nbytes f, 0).
-  Proof using.
+  Theorem NBytes_tie f : f_n f < two64 -> gNBytes (to_gen f) = Ok (filter_nbytes f, 0).
+  Proof using varint_size_nonneg.
+    clear rv_code_nz.
     intros Hn. unfold gNBytes, Kernels3.gcs_Filter_NBytes, filter_nbytes, to_gen.
     cbn [Kernels3.gcs_Filter_n Kernels3.gcs_Filter_filterData].
-    rewrite (mod64_small (f_n f)) by exact Hn. reflexivity.
+    rewrite (mod64_small (f_n f)) by exact Hn. rewrite require_size by lia. reflexivity.
   Qed.
 
-  Theorem NPBytes_tie f : f_n f < two64 -> gNPBytes (to_gen f) = (filter_npbytes f, 0).
-  Proof using.
+  Theorem NPBytes_tie f : f_n f < two64 -> gNPBytes (to_gen f) = Ok (filter_npbytes f, 0).
+  Proof using varint_size_nonneg.
+    clear rv_code_nz.
     intros Hn. unfold gNPBytes, Kernels3.gcs_Filter_NPBytes, filter_npbytes, to_gen.
     cbn [Kernels3.gcs_Filter_n Kernels3.gcs_Filter_filterData Kernels3.gcs_Filter_p].
     rewrite (mod64_small (f_n f)) by exact Hn.
+    rewrite <- Z.add_assoc. rewrite require_size by lia. cbn [rbind].
     unfold wire_write_varint, buf_write_byte, buf_write, buf_bytes, buf_grow.
     cbn [app negb N.eqb fst snd]. rewrite <- app_assoc. reflexivity.
   Qed.
@@ -203,7 +213,7 @@ Section Buffers.
 
   Lemma read_varint_errs d e : read_varint d = Err e -> e = 3 \/ e = 4.
   Proof using.
-    clear rv_code_nz varint_size rv_code.
+    clear rv_code_nz varint_size_nonneg varint_size rv_code.
     unfold read_varint, read_le. destruct d as [|x t]; [intros H; injection H; auto|].
     repeat match goal with |- context [if ?c then _ else _] => destruct c end;
       intros H; try discriminate; injection H; auto.
@@ -211,14 +221,14 @@ Section Buffers.
 
   Lemma read_varint_nopanic d k : read_varint d <> Panic k.
   Proof using.
-    clear rv_code_nz varint_size rv_code.
+    clear rv_code_nz varint_size_nonneg varint_size rv_code.
     unfold read_varint, read_le. destruct d as [|x t]; [discriminate|].
     repeat match goal with |- context [if ?c then _ else _] => destruct c end; discriminate.
   Qed.
 
   Theorem FromNBytes_tie P M d : gFromNBytes P M d = from_nbytes_view (from_nbytes P M d).
   Proof using rv_code_nz.
-    clear varint_size. unfold gFromNBytes, Kernels3.FromNBytes, from_nbytes, buf_new, buf_bytes, wire_read_varint.
+    clear varint_size_nonneg varint_size. unfold gFromNBytes, Kernels3.FromNBytes, from_nbytes, buf_new, buf_bytes, wire_read_varint.
     destruct (read_varint d) as [[n rest]|e|k] eqn:Er.
     - cbn [rbind N.eqb negb]. change (N.shiftl fromn_nbase fromn_nbits) with 4294967296.
       destruct (N.leb_spec 4294967296 n) as [Hbig|Hsmall]; [reflexivity|].
